@@ -176,6 +176,7 @@ fn pinned(ctx: &Ctx, rep: &mut Report) {
             Dialect::Mysql,
             Stmt::Upd(Upd {
                 with: None,
+                alias: None,
                 table: "t1".into(),
                 sets: vec![("a".into(), X::Int(1))],
                 from: vec![From_::Table("t2".into(), None), From_::Table("t3".into(), None)],
